@@ -66,7 +66,7 @@ def run(ctx, eng):
         r = cm.explicit_raise(p)
         if r is not None and p.exc['names'] == {'ProtocolError'}:
             ts_assumed = any(
-                e.kind == 'assume' and 'trailers_sent' in T.show(e.cond)
+                e.kind == 'assume' and 'trailers_sent' in cm.show0(e.cond)
                 for e in p.events)
             if ts_assumed and cm.calls_to(p, '_build_headers_frames',
                                           'encode'):
@@ -116,7 +116,7 @@ def run(ctx, eng):
         if r is not None and not cm.process_inputs(p) and \
                 cm.param_truth(p, 'end_stream') and any(
                     e.kind == 'assume' and 'is_informational_response' in
-                    T.show(e.cond) and e.cond[0] != 'not'
+                    cm.show0(e.cond) and e.cond[0] != 'not'
                     for e in p.events):
             ok = True
     ctx.ob('ORD.informational', fi.qual,
